@@ -125,6 +125,26 @@ def main(argv=None):
         return 2
     ctx.close()
     wall = time.time() - ctx.t0
+    # Before a violation is reported its case is re-executed twice on fresh objects; the record says
+    # whether it reproduces in isolation (a history-dependent failure, e.g. one that needs an earlier
+    # failed load in the same process, is still reported — the full run is then the reproducer).
+    seen_ids = set()
+    for v in ctx.violations:
+        vid = findings.violation_id(pid, v)
+        if vid in seen_ids or len(seen_ids) >= 12 or v.get("case") is None:
+            continue
+        seen_ids.add(vid)
+        try:
+            case = findings.unjson(findings._jsonable(v["case"]))
+            r1 = {findings.violation_id(pid, x) for x in mod.run_case(case)}
+            r2 = {findings.violation_id(pid, x) for x in mod.run_case(case)}
+            v.setdefault("detail", {})
+            if isinstance(v["detail"], dict):
+                v["detail"]["reproduced_in_isolation"] = (vid in r1 and vid in r2)
+                v["detail"]["replay_deterministic"] = (r1 == r2)
+        except Exception as e:  # the replay entry point must never turn a finding into a crash
+            if isinstance(v.get("detail"), dict):
+                v["detail"]["reproduced_in_isolation"] = f"replay raised {type(e).__name__}"
     n_new, n_known = findings.report(pid, ctx.violations, a.seed, a.tier)
     cov.setdefault("known_finding_cases", n_known)
     if ctx.notes:
